@@ -1,2 +1,13 @@
 import PeptVerif.Props.C16
+#print axioms Pept.Search.occurrences_spec
+#print axioms Pept.Search.findIndices_spec
+#print axioms Pept.Search.findIndices_increasing
+#print axioms Pept.Search.overlapping_found
+#print axioms Pept.Search.nonoverlapping_scan_misses
+#print axioms Pept.Search.ignore_mods_substring
+#print axioms Pept.Search.coverage_iff
+#print axioms Pept.Search.coverage_accumulate_count
+#print axioms Pept.Search.coverage_length
+#print axioms Pept.Search.percent_coverage_unit
 #print axioms Pept.Search.unordered_iff_count_le
+#print axioms Pept.Search.unordered_iff_multiset_le
